@@ -65,6 +65,14 @@ func genC04(c *Ctx) {
 	h := crypto.NewExpandMsgXOFKMAC128("agg")
 	for it := 0; it < n; it++ {
 		size := 1 + c.intn(16)
+		// long lists: sizes around the powers of two a chunked or windowed implementation would use
+		bigSizes := []int{17, 33, 64, 65, 127, 128, 129, 130, 200, 257}
+		if c.thorough() {
+			bigSizes = append(bigSizes, 255, 256, 300, 511, 512, 513, 1000, 1025)
+		}
+		if it >= n-len(bigSizes) {
+			size = bigSizes[it-(n-len(bigSizes))]
+		}
 		ks := c.scalarMultiset(size)
 		if it%10 == 0 && size >= 2 { // force a multiset summing to zero
 			sum := new(big.Int)
@@ -244,9 +252,12 @@ func genC04(c *Ctx) {
 			}))
 		}
 		// a malformed signature inside the list
-		if it%5 == 0 {
+		if it%5 == 0 || size > 16 {
 			bad := append([]crypto.Signature{}, sigs...)
 			pos := c.intn(size)
+			if size > 16 {
+				pos = size - 1 - c.intn(2)
+			}
 			kind := c.intn(3)
 			switch kind {
 			case 0:
